@@ -191,3 +191,32 @@ def token_edits(src: str, r: random.Random, vocab):
         new = ln[: t.start[1]] + r.choice(vocab) + ln[t.end[1] :]
     lines[t.start[0] - 1] = new
     return "\n".join(lines)
+
+
+def token_deletions(src: str):
+    """Every single-token deletion (systematic, not sampled)."""
+    try:
+        toks = [t for t in pytok.generate_tokens(io.StringIO(src).readline) if t.type in (pytok.NAME, pytok.OP, pytok.NUMBER, pytok.STRING) and t.start[0] == t.end[0]]
+    except (pytok.TokenError, SyntaxError, IndentationError):
+        return []
+    lines = src.split("\n")
+    out = []
+    for t in toks:
+        ln = lines[t.start[0] - 1]
+        new = lines[: t.start[0] - 1] + [ln[: t.start[1]] + ln[t.end[1] :]] + lines[t.start[0] :]
+        out.append("\n".join(new))
+    return out
+
+
+import ast as _ast
+
+
+class _NoParens(_ast._Unparser):
+    """ast.unparse without precedence parentheses: renders trees at their precedence boundaries."""
+
+    def require_parens(self, precedence, node):
+        return self.delimit_if("", "", False)
+
+
+def unparse_no_parens(tree) -> str:
+    return _NoParens().visit(tree)
